@@ -89,9 +89,13 @@ def _surf_shapes(tier):
             dict(pu=2, pv=2, mu=[], mv=[], dirs='v', r=1, rational=True),
             # different degrees per direction with insertion counts at / above the limit of the selected direction
             dict(pu=1, pv=2, mu=[], mv=[1], dirs='v', r=2, rational=False), dict(pu=2, pv=1, mu=[1], mv=[], dirs='v', r=2, rational=False),
-            dict(pu=1, pv=2, mu=[1], mv=[], dirs='u', r=2, rational=False)]
+            dict(pu=1, pv=2, mu=[1], mv=[], dirs='u', r=2, rational=False),
+            # knot vectors kept as given (normalize_kv=False, symbolic ranges: the inserted value may be 0, negative, > 1)
+            dict(pu=1, pv=2, mu=[], mv=[], dirs='v', r=1, rational=False, norm=False),
+            dict(pu=2, pv=1, mu=[], mv=[], dirs='u', r=1, rational=False, norm=False)]
     if tier == 'thorough':
-        base += [dict(pu=3, pv=2, mu=[1], mv=[1], dirs='uv', r=2, rational=False),
+        base += [dict(pu=2, pv=2, mu=[1], mv=[], dirs='uv', r=1, rational=False, norm=False),
+                 dict(pu=3, pv=2, mu=[1], mv=[1], dirs='uv', r=2, rational=False),
                  dict(pu=3, pv=3, mu=[2], mv=[1], dirs='u', r=1, rational=False),
                  dict(pu=2, pv=3, mu=[1], mv=[1, 1], dirs='v', r=3, rational=False),
                  dict(pu=2, pv=2, mu=[1], mv=[1], dirs='uv', r=1, rational=True)]
@@ -101,18 +105,21 @@ def _surf_shapes(tier):
 @scenario('C04', fns=['operations.insert_knot', 'helpers.knot_insertion', 'BSpline.Surface.insert_knot',
                       'BSpline.Surface.set_ctrlpts'],
           quick=lambda: _surf_shapes('quick'), thorough=lambda: _surf_shapes('thorough'))
-def surface_insert(ctx, pu, pv, mu, mv, dirs, r, rational):
+def surface_insert(ctx, pu, pv, mu, mv, dirs, r, rational, norm=True):
     """ensures: S(u,v) unchanged; only the selected direction's size and knot vector change"""
-    U, iu, su = shapes.make_kv(ctx, pu, mu, prefix='a')
-    V, iv, sv = shapes.make_kv(ctx, pv, mv, prefix='b')
+    U, iu, su = shapes.make_kv(ctx, pu, mu, prefix='a', normalized=norm)
+    V, iv, sv = shapes.make_kv(ctx, pv, mv, prefix='b', normalized=norm)
     x = shapes.param_in(ctx, 'x', U[0], U[-1], open_lo=True, open_hi=True)
-    for k in [U[0]] + iu + iv + [U[-1]]:
+    if not norm:
+        ctx.assume(ctx.lt(V[0], x))
+        ctx.assume(ctx.lt(x, V[-1]))
+    for k in [U[0]] + iu + iv + [U[-1]] + ([] if norm else [V[0], V[-1]]):
         ctx.assume(ctx.sep(x, k, MULT_TOL))
     u = shapes.param_in(ctx, 'u', U[0], U[-1])
     v = shapes.param_in(ctx, 'v', V[0], V[-1])
     P = shapes.net(ctx, 'P', su * sv, 3)
     W = shapes.weights(ctx, 'w', su * sv) if rational else None
-    srf = shapes.build_surface(ctx, pu, pv, U, V, P, su, sv, W)
+    srf = shapes.build_surface(ctx, pu, pv, U, V, P, su, sv, W, normalize_kv=norm)
     Pw = shapes.homog(P, W)
     if rational:
         ctx.assume_pos(spec.surface_point(pu, pv, U, V, [[w] for w in W], su, sv, u, v)[0], 'L.weight_function_positive')
@@ -160,7 +167,9 @@ def _vol_shapes(tier):
             dict(deg=[2, 1, 1], m=[[], [], []], d=0, r=2), dict(deg=[1, 2, 1], m=[[], [], []], d=1, r=2),
             dict(deg=[1, 1, 2], m=[[], [], []], d=2, r=2),
             # the other directions have interior knots of their own: the inserted parameter may coincide with one of THEIR knots
-            dict(deg=[1, 2, 2], m=[[], [1], []], d=2, r=2), dict(deg=[2, 1, 2], m=[[1], [], [1]], d=1, r=1)]
+            dict(deg=[1, 2, 2], m=[[], [1], []], d=2, r=2), dict(deg=[2, 1, 2], m=[[1], [], [1]], d=1, r=1),
+            # knot vectors kept as given (normalize_kv=False): the inserted value may be 0 or negative
+            dict(deg=[1, 1, 1], m=[[], [], []], d=1, r=1, norm=False), dict(deg=[1, 1, 1], m=[[], [], []], d=2, r=1, norm=False)]
     if tier == 'thorough':
         base += [dict(deg=[2, 2, 1], m=[[1], [], []], d=1, r=2), dict(deg=[1, 2, 2], m=[[], [1], []], d=2, r=1),
                  dict(deg=[2, 1, 2], m=[[], [], [1]], d=2, r=2)]
@@ -169,21 +178,21 @@ def _vol_shapes(tier):
 
 @scenario('C04', fns=['operations.insert_knot', 'helpers.knot_insertion', 'BSpline.Volume.insert_knot'],
           quick=lambda: _vol_shapes('quick'), thorough=lambda: _vol_shapes('thorough'))
-def volume_insert(ctx, deg, m, d, r):
+def volume_insert(ctx, deg, m, d, r, norm=True):
     """ensures: V(u,v,w) unchanged; only direction d grows"""
     kvs, inner, sizes = [], [], []
     for a, pfx in enumerate('abc'):
-        U, iu, n = shapes.make_kv(ctx, deg[a], m[a], prefix=pfx)
+        U, iu, n = shapes.make_kv(ctx, deg[a], m[a], prefix=pfx, normalized=norm)
         kvs.append(U)
         inner.append(iu)
         sizes.append(n)
-    x = shapes.param_in(ctx, 'x', ctx.lit(0), ctx.lit(1), open_lo=True, open_hi=True)
-    for k in [ctx.lit(0), ctx.lit(1)] + inner[0] + inner[1] + inner[2]:
+    x = shapes.param_in(ctx, 'x', kvs[d][0], kvs[d][-1], open_lo=True, open_hi=True)
+    for k in [kvs[d][0], kvs[d][-1]] + inner[0] + inner[1] + inner[2]:
         ctx.assume(ctx.sep(x, k, MULT_TOL))
-    prm = [shapes.param_in(ctx, nm, ctx.lit(0), ctx.lit(1)) for nm in ('u', 'v', 'w')]
+    prm = [shapes.param_in(ctx, nm, kvs[a][0], kvs[a][-1]) for a, nm in enumerate(('u', 'v', 'w'))]
     su, sv, sw = sizes
     P = shapes.net(ctx, 'P', su * sv * sw, 3)
-    vol = shapes.build_volume(ctx, deg[0], deg[1], deg[2], kvs[0], kvs[1], kvs[2], P, su, sv, sw)
+    vol = shapes.build_volume(ctx, deg[0], deg[1], deg[2], kvs[0], kvs[1], kvs[2], P, su, sv, sw, normalize_kv=norm)
     s = sum(1 for k in kvs[d] if x == k)
     if r > deg[d] - s:
         ctx.skip('rejected case covered at curve level')
